@@ -134,6 +134,13 @@ def rule_induction(ctx):
         "outer-shape:exists": (lemma(q="Exists"), "MalformedInductiveLemma"),
         "outer-shape:unquantified": (K("Formula::BinaryFormula", connective=K("BinaryConnective::Implication"), lhs=cmp_(), rhs=FF), "MalformedInductiveLemma"),
     }
+    # .. for every relation but >= and every binary connective but ->, not only for one representative
+    for rel_ in fx.variants("syntax_tree::fol::sigma_0::Relation"):
+        if rel_ not in ("GreaterEqual", "Greater"):
+            bad["guard-shape:" + rel_] = (lemma(lhs=cmp_(guards=[guard(rel=rel_)])), "MalformedInductiveLemma")
+    for conn_ in fx.variants("syntax_tree::fol::sigma_0::BinaryConnective"):
+        if conn_ not in ("Implication", "Equivalence"):
+            bad["outer-shape:" + conn_] = (lemma(conn=conn_), "MalformedInductiveLemma")
     for name, (node, e_) in bad.items():
         outs = {x for _, x in run(node)}
         # the variable-list test may come first: a refusal of either kind is a refusal
